@@ -59,6 +59,9 @@ pub mod div {
         (shift, carry)
     }
 }
+pub mod modular_large {
+    pub use crate::modular::verif_large_op;
+}
 pub mod gcd {
     pub use crate::gcd::*;
 }
